@@ -84,13 +84,14 @@ pub enum Durable {
 /// shared environment of one run
 pub struct Env {
     pub spec: GraphSpec,
-    pub shared: Mutex<Arc<dyn Sampler>>,
+    /// (sampler, true if this object came out of a restore)
+    pub shared: Mutex<(Arc<dyn Sampler>, bool)>,
     pub disk: Mutex<Option<Durable>>,
     pub restarts_published: Mutex<u64>,
 }
 
 pub struct ClientState {
-    pub local: Option<Arc<dyn Sampler>>,
+    pub local: Option<(Arc<dyn Sampler>, bool)>,
 }
 
 #[derive(Clone, Debug)]
@@ -104,13 +105,19 @@ pub struct OpRecord {
     pub ret: u64,
     pub cap_hit: bool,
     pub faults_fired: usize,
+    /// the operation ran on a sampler that was restored from its durable form
+    pub on_restored: bool,
 }
 
-fn current(env: &Env, cs: &ClientState) -> Arc<dyn Sampler> {
+fn current2(env: &Env, cs: &ClientState) -> (Arc<dyn Sampler>, bool) {
     match &cs.local {
         Some(s) => s.clone(),
         None => env.shared.lock().unwrap().clone(),
     }
+}
+
+fn current(env: &Env, cs: &ClientState) -> Arc<dyn Sampler> {
+    current2(env, cs).0
 }
 
 fn persist(s: &dyn Sampler, json: bool) -> Result<Durable, String> {
@@ -160,12 +167,14 @@ pub fn exec_op(env: &Env, cs: &mut ClientState, op: &Op, record_trace: bool, cap
             ret: 0,
             cap_hit: false,
             faults_fired: 0,
+            on_restored: false,
         });
         f.events = total;
         return f;
     }
     ctx::begin_op(faults, record_trace, cap);
     let mut aux = Vec::new();
+    let on_restored = current2(env, cs).1;
     let outcome = match op {
         Op::SampleX { point, ed, st } | Op::Aborted { point, ed, st, .. } => {
             let s = current(env, cs);
@@ -182,15 +191,15 @@ pub fn exec_op(env: &Env, cs: &mut ClientState, op: &Op, record_trace: bool, cap
         Op::Build => match sampler::build(&env.spec) {
             Built::Ok(s) => {
                 let d = s.image().digest();
-                cs.local = Some(Arc::from(s));
+                cs.local = Some((Arc::from(s), false));
                 Outcome::Image(d)
             }
             Built::Err(e) => Outcome::BuildErr(e),
             Built::Panicked(m) => Outcome::Panicked(m),
         },
         Op::CloneLocal => {
-            let s = current(env, cs);
-            cs.local = Some(Arc::from(s.clone_box()));
+            let (s, r) = current2(env, cs);
+            cs.local = Some((Arc::from(s.clone_box()), r));
             Outcome::Unit
         }
         Op::Persist { json } => {
@@ -231,10 +240,10 @@ pub fn exec_op(env: &Env, cs: &mut ClientState, op: &Op, record_trace: bool, cap
                             let s: Arc<dyn Sampler> = Arc::from(s);
                             let dig = s.image().digest();
                             if *publish {
-                                *env.shared.lock().unwrap() = s.clone();
+                                *env.shared.lock().unwrap() = (s.clone(), true);
                                 *env.restarts_published.lock().unwrap() += 1;
                             }
-                            cs.local = Some(s);
+                            cs.local = Some((s, true));
                             Outcome::Image(dig)
                         }
                     }
@@ -254,6 +263,7 @@ pub fn exec_op(env: &Env, cs: &mut ClientState, op: &Op, record_trace: bool, cap
         ret: 0,
         cap_hit: st.cap_hit,
         faults_fired: st.fired.len(),
+        on_restored,
     }
 }
 
@@ -368,7 +378,7 @@ impl Default for RunOpts {
 fn fresh_env(spec: &GraphSpec, s: Arc<dyn Sampler>) -> Env {
     Env {
         spec: spec.clone(),
-        shared: Mutex::new(s),
+        shared: Mutex::new((s, false)),
         disk: Mutex::new(None),
         restarts_published: Mutex::new(0),
     }
@@ -674,6 +684,7 @@ pub fn run_scenario(sc: &Scenario, opts: &RunOpts) -> RunReport {
                     Op::Build => "build-not-deterministic",
                     Op::ImageCheck => "sampler-image-differs",
                     Op::Persist { .. } => "persisted-form-differs",
+                    _ if r.on_restored => "sample-differs-after-restore",
                     Op::SampleRng { .. } => "rng-sample-differs-from-x-space-sample",
                     _ => "result-differs-from-isolated-reference",
                 };
@@ -729,7 +740,7 @@ pub fn run_scenario(sc: &Scenario, opts: &RunOpts) -> RunReport {
     }
     // the shared sampler was never modified (unless a restart replaced the object,
     // in which case the replacement must have the same image anyway)
-    let image_after = env.shared.lock().unwrap().image();
+    let image_after = env.shared.lock().unwrap().0.image();
     if image_after.digest() != image_before.digest() {
         let mut p = String::from("sampler");
         violations.push(Violation {
